@@ -25,7 +25,7 @@ import (
 
 // StopConnPlan is one client connection of a stop scenario.
 type StopConnPlan struct {
-	Kind     string `json:"kind"`               // idle | keepalive | inflight | partial | ws | wsmsg
+	Kind     string `json:"kind"`               // idle | keepalive | inflight | hangup (peer resets while its handler runs) | partial | ws | wsmsg
 	Transfer bool   `json:"transfer,omitempty"` // ws: UpgradeAndTransferConnToPoller (blocking I/O mode)
 	SleepUs  int    `json:"sleep_us,omitempty"` // inflight: the handler sleeps this long
 }
@@ -62,9 +62,9 @@ func genHTTPStopCase(r *simrt.Rand, tier string) *HTTPStopCase {
 	c.MaxBlocking = r.Pick(1, 2, 8)
 	n := r.Range(0, 4)
 	for i := 0; i < n; i++ {
-		p := StopConnPlan{Kind: r.PickS("idle", "keepalive", "inflight", "partial", "ws", "ws", "wsmsg")}
+		p := StopConnPlan{Kind: r.PickS("idle", "keepalive", "inflight", "partial", "ws", "ws", "wsmsg", "hangup")}
 		p.Transfer = r.Bool(0.4)
-		if p.Kind == "inflight" {
+		if p.Kind == "inflight" || p.Kind == "hangup" {
 			p.SleepUs = r.Pick(10, 1000, 50000)
 		}
 		c.Conns = append(c.Conns, p)
@@ -241,7 +241,7 @@ func runHTTPStopAs(t *testing.T, ci interface{}, trace bool, prop string) *commo
 				} else {
 					u.Upgrade(w, r, nil)
 				}
-			case "inflight":
+			case "inflight", "hangup":
 				simrt.Sleep(time.Duration(p.SleepUs) * time.Microsecond)
 				w.Write([]byte("late"))
 			default:
@@ -323,6 +323,13 @@ func runHTTPStopAs(t *testing.T, ci interface{}, trace bool, prop string) *commo
 				case "inflight":
 					send(fmt.Sprintf("GET /x HTTP/1.1\r\nHost: sim\r\nX-Conn: %d\r\n\r\n", i))
 					simrt.WaitStuck("await-handler", 5*time.Millisecond, func() bool { return inHandler > 0 || cs.eof })
+				case "hangup":
+					send(fmt.Sprintf("GET /x HTTP/1.1\r\nHost: sim\r\nX-Conn: %d\r\n\r\n", i))
+					simrt.WaitStuck("await-handler", 5*time.Millisecond, func() bool { return inHandler > 0 || cs.eof })
+					if cs.p != nil {
+						cs.p.reset()
+					}
+					cs.eof = true
 				case "ws", "wsmsg":
 					send(fmt.Sprintf("GET /ws HTTP/1.1\r\nHost: sim\r\nX-Conn: %d\r\nConnection: Upgrade\r\nUpgrade: websocket\r\nSec-WebSocket-Version: 13\r\nSec-WebSocket-Key: dGhlIHNhbXBsZSBub25jZQ==\r\n\r\n", i))
 					simrt.WaitStuck("await-101", time.Second, func() bool { return bytes.Contains(cs.recvd, []byte("\r\n\r\n")) || cs.eof })
